@@ -171,6 +171,10 @@ func init() {
 					ok, at := served(k, ck)
 					if r2, _, _ := a.idpCounts(); time.Since(t0) < 900*time.Millisecond && (!ok || at != newAT || r2 != r1) {
 						c.violation("C12", fmt.Sprintf("after the refresh, a later request through instance %d: served=%v, access token %q, %d further refreshes (want served with %q, none)", k, ok, at, r2-r1, newAT), in(nil))
+						if at != newAT {
+							c.violation("C10", fmt.Sprintf("the session one instance saved (after its refresh) is not what the next request through instance %d loads: it carries access token %q, saved was %q", k, at, newAT), in(nil))
+							c.violation("C07", fmt.Sprintf("the identity headers instance %d sends upstream are built from a copy of the session that is no longer the stored one (X-Forwarded-Access-Token %q, the stored session has %q)", k, at, newAT), in(nil))
+						}
 					}
 				}
 			}
@@ -198,6 +202,7 @@ func init() {
 						if ok, _ := served(k, h.Name+"="+h.Value); ok && v.Status == 302 {
 							c.violation("C11", fmt.Sprintf("after a successful sign-out through one instance, a cookie the browser held before is still authenticated by instance %d of the same deployment (which had served that session before): something of the session lives in the process, not in the shared store", k),
 								in(map[string]interface{}{"signout_status": v.Status}))
+							c.violation("C10", fmt.Sprintf("after a clear through one instance, the cleared session still loads through instance %d", k), in(map[string]interface{}{"signout_status": v.Status}))
 							c.violation("C01", fmt.Sprintf("a session that was signed out through one instance (its stored entry is gone) is still served by instance %d of the same deployment: the credential is no longer valid", k),
 								in(map[string]interface{}{"signout_status": v.Status}))
 						}
@@ -306,6 +311,40 @@ func init() {
 				}
 			}
 
+			// ---- Redis is restarted (same address, data kept: a fail-over to a replica, a pod rescheduled) between two steps: sessions
+			// saved AFTER it came back are loaded by both instances — nothing in a process still points at the dead connection
+			if redis {
+				a.mr.Close()
+				rp.get("/app/while-down", ck, nil)
+				a.do(reqSpec{Target: "/app/while-down", Cookie: ck})
+				if err := a.mr.Restart(); err != nil {
+					c.violation("HARNESS", "miniredis restart: "+err.Error(), nil)
+				} else {
+					for i := 0; i < 12; i++ { // (connections of the pools that died with the old server are found out and replaced)
+						rp.get("/ping-through", "", nil)
+						rp.get("/app/warm-up", ck, nil)
+						a.do(reqSpec{Target: "/app/warm-up", Cookie: ck})
+					}
+					nb := newBrowser()
+					lr3 := a.login(nb, u, "/")
+					c.casen("replicas|redis-restart", fmt.Sprint(lr3.OK))
+					c.count("replicas:redis-restart")
+					if !lr3.OK {
+						c.violation("C10", "after Redis was restarted (same address, data kept) a login through the first instance no longer completes", in(nil))
+					} else {
+						for k := 0; k < 2; k++ {
+							ok := false
+							for try := 0; try < 3 && !ok; try++ {
+								ok, _ = served(k, nb.cookieHeader())
+							}
+							if !ok {
+								c.violation("C10", fmt.Sprintf("a session saved AFTER Redis came back from a restart is not loaded by instance %d (three tries): the process still reads through a connection that died with the old server", k), in(nil))
+							}
+						}
+					}
+				}
+			}
+
 			// ---- C09: accepted while valid by B, refused by both once the lifetime has run out
 			{
 				s := a.sessionFor(u, time.Hour-3*time.Second)
@@ -327,6 +366,6 @@ func init() {
 			rp.stop()
 			a.close()
 		}
-		c.close([]string{"replicas:same-session", "replicas:concurrent-refresh", "replicas:signout", "replicas:presented-again-after-expiry", "replicas:cross-instance-login", "replicas:restart"})
+		c.close([]string{"replicas:same-session", "replicas:concurrent-refresh", "replicas:signout", "replicas:presented-again-after-expiry", "replicas:cross-instance-login", "replicas:restart", "replicas:redis-restart"})
 	})
 }
